@@ -81,9 +81,11 @@ def small_specs():
         N(i, "deny", kids=[N(i, "principal", "public"), N(i, "permission", "write")])])))
     i = Ids()
     out.append(("valid:dataset", N(i, "dataset", kids=[
-        N(i, "title", "T"), person(i, "creator", orcid=False, email=False),
+        N(i, "title", "T"), person(i, "creator", orcid=False, email=False), person(i, "creator"),
         N(i, "abstract", kids=[N(i, "para", "some text, not twenty words")]),
         N(i, "keywordSet", kids=[N(i, "keyword", "k1"), N(i, "keyword", "k2")]),
+        N(i, "keywordSet", kids=[N(i, "keyword", "k3")]),
+        N(i, "keywordSet"),
         person(i, "contact"),
         N(i, "methods", kids=[N(i, "methodStep", kids=[N(i, "description", kids=[N(i, "para", "x")])])]),
         N(i, "project", kids=[N(i, "title", "P"), person(i, "personnel", role=True)])])))
@@ -258,6 +260,15 @@ class Env:
         self.index = {id(n): k for k, n in enumerate(self.nodes)}
         self.n_tree = len(self.tree_nodes)
         self.twin0 = self.n_tree + len(self.aux)
+        # long-lived objects a caller may keep across calls: Rule instances and one error list
+        self.kept_rules = {}
+        self.kept_errs = []
+
+    def kept_rule(self, node_name):
+        from metapype.eml import rule
+        if node_name not in self.kept_rules:
+            self.kept_rules[node_name] = rule.get_rule(node_name)
+        return self.kept_rules[node_name]
 
     @staticmethod
     def _retag(sn):
@@ -329,6 +340,14 @@ def prepare(env, d):
     op = d["op"]
     n = env.nodes[d["t"]]
     ident = lambda v: v
+    if d.get("kept") and op in ("validate.node.ff", "validate.node.collect") and n.name in rule.node_mappings:
+        # what validate.node does, with a Rule instance and an error list the caller KEEPS across calls
+        r = env.kept_rule(n.name)
+        if op == "validate.node.ff":
+            return (lambda: r.validate_rule(n, None)), ident
+        errs = env.kept_errs
+        k0 = len(errs)
+        return (lambda: r.validate_rule(n, errs)), (lambda v: [v, canon_errs(env, errs[k0:])])
     if op == "validate.node.ff":
         return (lambda: validate.node(n)), ident
     if op == "validate.node.collect":
@@ -393,7 +412,7 @@ def prepare(env, d):
     if op == "child_insert_index":
         c = env.nodes[d["c"]]
         try:
-            r = rule.get_rule(n.name)        # building the Rule is not the operation
+            r = env.kept_rule(n.name) if d.get("kept") else rule.get_rule(n.name)        # building the Rule is not the operation
         except Exception as e:               # noqa
             cls = type(e).__name__
             return (lambda: "no rule: " + cls), ident
@@ -469,6 +488,20 @@ def instances(env, rng, per_op=2):
         k = pick(lambda x: x.name in rule.node_mappings and len(x.children) > 0)
         out.append({"op": "child_insert_index", "t": k, "c": env.n_tree + rng.randrange(len(env.aux))})
         out.append({"op": "is_equal", "t": pick(), "c": pick()})
+    # queries on childless nodes
+    leaf = lambda: pick(lambda x: len(x.children) == 0)
+    out.append({"op": "find_child", "t": leaf(), "name": rname()})
+    out.append({"op": "find_all_children", "t": leaf(), "name": rname()})
+    out.append({"op": "find_descendant", "t": leaf(), "name": rname()})
+    out.append({"op": "find_all_descendants", "t": leaf(), "name": rname(), "seed": []})
+    out.append({"op": "find_single_node_by_path", "t": leaf(), "path": [rname()]})
+    out.append({"op": "find_all_nodes_by_path", "t": leaf(), "path": [rname(), rname()]})
+    # the same operations through objects the caller keeps (Rule instances, one error list)
+    for _ in range(2):
+        out.append({"op": "validate.node.ff", "t": pick(), "kept": True})
+        out.append({"op": "validate.node.collect", "t": pick(), "kept": True})
+        k = pick(lambda x: x.name in rule.node_mappings and len(x.children) > 0)
+        out.append({"op": "child_insert_index", "t": k, "c": env.n_tree + rng.randrange(len(env.aux)), "kept": True})
     out.append({"op": "validate.tree.ff", "t": 0})
     out.append({"op": "validate.tree.collect", "t": 0})
     out.append({"op": "validate.tree.collect", "t": inner()})
@@ -612,6 +645,99 @@ def coq_trace(d, log):
 
 
 # ------------------------------------------------------------------ the runs
+def name_paths(node, depth):
+    """all name paths of length 1..depth that lead from node to some descendant"""
+    out = set()
+    if depth == 0:
+        return out
+    for c in node.children:
+        out.add((c.name,))
+        for p in name_paths(c, depth - 1):
+            out.add((c.name,) + p)
+    return out
+
+
+def sweep_calls(env, rng, starts):
+    """path queries that fan out: every name path up to length 3 from each start node (all branches carrying the
+    same names are followed at once by the query), the same with an absent last step, and every query on every
+    childless start"""
+    out = []
+    for k in starts:
+        n = env.nodes[k]
+        paths = sorted(name_paths(n, 3))
+        for p in paths:
+            out.append({"op": "find_all_nodes_by_path", "t": k, "path": list(p)})
+            out.append({"op": "find_single_node_by_path", "t": k, "path": list(p)})
+        for p in (rng.sample(paths, 3) if len(paths) > 3 else paths):
+            out.append({"op": "find_all_nodes_by_path", "t": k, "path": list(p) + ["noSuchElement"]})
+        for nm in sorted({p[0] for p in paths}) or ["title"]:
+            out.append({"op": "find_all_children", "t": k, "name": nm})
+            out.append({"op": "find_all_descendants", "t": k, "name": nm, "seed": []})
+        if not n.children:
+            out.append({"op": "find_child", "t": k, "name": "title"})
+            out.append({"op": "find_descendant", "t": k, "name": "title"})
+            out.append({"op": "find_all_nodes_by_path", "t": k, "path": ["title", "para"]})
+            out.append({"op": "find_single_node_by_path", "t": k, "path": ["title"]})
+    return out
+
+
+def random_edits(env, rng, k=4):
+    """in-place edits through the public API that keep the set and order of nodes"""
+    out = []
+    for _ in range(k):
+        i = rng.randrange(env.n_tree)
+        kind = rng.choice(["content", "attr", "attr-del", "tail", "extras", "prefix", "ns"])
+        if kind == "content":
+            out.append(["content", i, rng.choice(["edited <&>", None, "", "12", "word " * 22])])
+        elif kind == "attr":
+            out.append(["attr", i, rng.choice(["id", "directory", "system", "zz"]), rng.choice(["e", "https://orcid.org", ""])])
+        elif kind == "attr-del":
+            out.append(["attr-del", i])
+        elif kind == "tail":
+            out.append(["tail", i, rng.choice([None, "t<&>"])])
+        elif kind == "extras":
+            out.append(["extras", i, "xml:lang", "fr"])
+        elif kind == "prefix":
+            out.append(["prefix", i, rng.choice([None, "eml", "q"])])
+        else:
+            out.append(["ns", i, rng.choice(["q", "eml"]), "urn:edited"])
+    return out
+
+
+def apply_edits(env, edits):
+    for e in edits:
+        n = env.nodes[e[1]]
+        if e[0] == "content":
+            n.content = e[2]
+        elif e[0] == "attr":
+            n.add_attribute(e[2], e[3])
+        elif e[0] == "attr-del":
+            if n.attributes:
+                n.remove_attribute(list(n.attributes)[0])
+        elif e[0] == "tail":
+            n.tail = e[2]
+        elif e[0] == "extras":
+            n.add_extras(e[2], e[3])
+        elif e[0] == "prefix":
+            n.prefix = e[2]
+        elif e[0] == "ns":
+            n.add_namespace(e[2], e[3])
+
+
+def after_edits_vs_fresh(spec, calls, edits):
+    """results of `calls` on the SAME objects after: all calls once, then the edits — and on a freshly built tree
+    with the edited values. Returns (results_same_objects, results_fresh, edited_snapshot)."""
+    env = Env(spec)
+    for d in calls:
+        perform(env, d)
+    apply_edits(env, edits)
+    same = [perform(env, d) for d in calls]
+    sn2 = NL.snapshot(env.root)
+    env2 = Env({"snapshot": sn2, "attach": False})
+    fresh = [perform(env2, d) for d in calls]
+    return same, fresh, sn2
+
+
 class Runner:
     def __init__(self, ctx, spec, label, rng, per_op):
         self.ctx = ctx
@@ -691,6 +817,36 @@ class Runner:
             self.sequence(list(idx), "permutation")
             self.ctx.count("permutations")
 
+    def sweep(self, starts):
+        calls = sweep_calls(self.env, self.rng, starts)
+        for d in calls:
+            r = perform(self.env, d)
+            self.ctx.case((self.label, json.dumps(d, sort_keys=True)), nontrivial=True)
+            self.ctx.count("path sweep calls")
+            if not self.check_state([d], d["op"]):
+                continue
+            r2 = perform(self.env, d)
+            if r2 != r:
+                self.ctx.fail("C11:" + d["op"], f"{d['op']} returns something else when repeated on the same tree",
+                              self.replay_obj([d, d], {"first": r, "second": r2}))
+            self.check_state([d, d], d["op"])
+
+    def edited(self, rounds):
+        """statelessness: every call again on the same objects after in-place edits == on a fresh identical tree"""
+        calls = [d for d in self.calls if d.get("c", 0) < self.env.twin0]
+        for _ in range(rounds):
+            edits = random_edits(self.env, self.rng)
+            same, fresh, sn2 = after_edits_vs_fresh(self.spec, calls, edits)
+            self.ctx.count("edit-then-repeat rounds")
+            for d, a, b in zip(calls, same, fresh):
+                self.ctx.case(None, nontrivial=False)
+                if a != b:
+                    self.ctx.fail("C11:" + d["op"], f"result of {d['op']} on a tree edited in place differs from its result on a freshly built "
+                                  "identical tree (something remembered from the calls before the edit)",
+                                  self.replay_obj(calls, {"edits": edits, "call": d, "same_objects": a, "fresh_tree": b}))
+                    break
+        self.fresh()
+
     def traces(self, out):
         for d in self.calls:
             res, log = traced(self.env, d)
@@ -721,9 +877,11 @@ def run(ctx, only_spec=None):
         r = Runner(ctx, spec, lbl, rng, per_op=2)
         ctx.count("tree:" + lbl.split(":")[0])
         r.singles()
+        r.sweep(list(range(r.env.n_tree)))
         r.pairs()
         share = n_perm // len(specs) + (1 if k < n_perm % len(specs) else 0)
         r.permutations(share)
+        r.edited(6 if thorough else 2)
         r.traces(traces)
     # random variants of the small trees (attributes / content / children dropped, added, changed)
     bases = small_specs()
@@ -734,8 +892,10 @@ def run(ctx, only_spec=None):
         r = Runner(ctx, {"snapshot": vsn, "attach": True}, "variant:" + lbl + ":" + "+".join(how), rng, per_op=2)
         ctx.count("tree:variant")
         r.singles()
+        r.sweep(list(range(r.env.n_tree)))
         r.pairs(limit=120)
         r.permutations(3)
+        r.edited(1)
         if k < 8:
             r.traces(traces)
     # single deletions: every attribute (all of them), contents and child subtrees (a sample in the quick tier)
@@ -757,6 +917,10 @@ def run(ctx, only_spec=None):
         ctx.count("tree:eml.xml")
         ctx.extra["eml_xml_nodes"] = r.env.n_tree
         r.singles()
+        inner = [k for k in range(r.env.n_tree) if r.env.tree_nodes[k].children]
+        r.sweep([0] + rng.sample(inner, min(len(inner), 40 if thorough else 12)) +
+                rng.sample([k for k in range(r.env.n_tree) if k not in inner], 5))
+        r.edited(3 if thorough else 1)
         r.pairs(limit=None if thorough else 80)
         r.permutations(10 if thorough else 2)
         r.traces(traces)
@@ -823,6 +987,14 @@ def replay(ctx, data):
     """re-run a recorded call sequence on the recorded tree"""
     rp = data["replay"]
     print(json.dumps({k: rp[k] for k in rp if k != "tree"}, indent=1)[:3000])
+    if rp.get("edits"):
+        same, fresh, _ = after_edits_vs_fresh(rp["tree"], rp["calls"], rp["edits"])
+        for d, a, b in zip(rp["calls"], same, fresh):
+            if a != b:
+                ctx.fail("C11:" + d["op"], f"result of {d['op']} on a tree edited in place differs from its result on a freshly built identical tree", rp)
+                break
+        NL.reset_store()
+        return
     env = Env(rp["tree"])
     s0 = env.state()
     alone = []
